@@ -11,7 +11,7 @@ pub fn spec() -> PropSpec {
     PropSpec {
         id: "C03",
         level: "model_checking",
-        rule: "enumeration of (pre-state: empty / populated over 2 contracts with keys of different lengths incl. [MAX], [0,MAX], [] / partial state erroring on unknown contracts) x declared mutation sets (none, value, deletion, two keys, carry target [1,MIN], empty key) x computed mutations from a first-pass data-output leaf (none, fresh key, key colliding with a declared one) x read request (4 read ops x contract {own, other mutated, other unmutated, unknown} x start key {[0],[1],[MAX],[0,MAX],[MAX,MAX],[]} x count {0,1,2,3}) x placement of the reading node (single leaf, root, inner, diamond with one deferred and one non-deferred parent, non-topological chain 2->1->0) through the two-pass entry point and the two run modes by hand. Oracle: every value returned to a read, echoed back through a pre-state read, equals the overlay reference; pass attribution from the echo order and from the per-call logs; verdict/gas/mutations as in C01. states = distinct cases, transitions = echo records observed. non-trivial = some read op executed; distinct by full case",
+        rule: "enumeration of (pre-state: empty / populated over 2 contracts with keys of different lengths incl. [MAX], [0,MAX], [] / partial state erroring on unknown contracts) x declared mutation sets (none, value, deletion, two keys, carry target [1,MIN], empty key) x computed mutations from a first-pass data-output leaf (none, fresh key, key colliding with a declared one) x read request (4 read ops x contract {own, other mutated, other unmutated, unknown} x start key {[0],[1],[MAX],[0,MAX],[MAX,MAX],[]} x count {0,1,2,3}) x placement of the reading node (single leaf, root, inner, diamond with one deferred and one non-deferred parent, non-topological chain 2->1->0); plus pairs of readers of one start key with different counts/views in one graph level and in two solutions through the two-pass entry point and the two run modes by hand. Oracle: every value returned to a read, echoed back through a pre-state read, equals the overlay reference; pass attribution from the echo order and from the per-call logs; verdict/gas/mutations as in C01. states = distinct cases, transitions = echo records observed. non-trivial = some read op executed; distinct by full case",
         assumptions: &[
             "the mock state's key successor and 'range read = iterated single reads' convention (that of the repository's own test state)",
             "fallback reads that the post-state overlay issues against the pre-state are implementation detail and not compared; only what the program receives is",
@@ -95,9 +95,7 @@ fn cases(tier: Tier, mut f: impl FnMut(u64, CkCase)) {
                             for &count in counts {
                                 // thin the product in the quick tier deterministically
                                 i += 1;
-                                if tier == Tier::Quick && i % 3 != 0 {
-                                    continue;
-                                }
+
                                 let probe = Role::Probe { op, ext, key: key.clone(), count };
                                 for p in placements(probe) {
                                     // solution 0: the probing predicate on contract C1 with `declared`
@@ -121,6 +119,68 @@ fn cases(tier: Tier, mut f: impl FnMut(u64, CkCase)) {
                             }
                         }
                     }
+                }
+            }
+        }
+    }
+    // the read op directly preceded by `Push(1)` (address operand), at several placements
+    for (declared, want) in [(vec![(vec![0], vec![7])], vec![7]), (vec![(vec![0], vec![])], vec![]), (vec![], vec![5])] {
+        i += 1;
+        let l = u16::MAX;
+        let leaf = Role::LeafPostEqualsAt1 { key: vec![0], want: want.clone() };
+        for p in [
+            PredCase { nodes: vec![(l, leaf.clone())], edges: vec![] },
+            PredCase { nodes: vec![(0, Role::Tracer), (l, leaf.clone())], edges: vec![1] },
+            PredCase { nodes: vec![(l, leaf.clone()), (0, Role::Tracer)], edges: vec![0] },
+        ] {
+            f(i, CkCase { preds: vec![p], sols: vec![SolCase { pred: 0, contract: 0xC1, data: vec![], mutations: declared.clone() }], pre: vec![(0xC1, vec![0], vec![5])], strict: false, collect_all: false });
+        }
+    }
+    // two nodes sharing ONE post-reading program (same content address) under different parents
+    for declared in [vec![(vec![0], vec![7])], vec![(vec![1], vec![])]] {
+        for key in [vec![0], vec![1]] {
+            for count in [1, 2] {
+                i += 1;
+                let shared = Role::Tagged(Box::new(Role::Probe { op: 2, ext: 0xC1, key: key.clone(), count }), 900);
+                let l = u16::MAX;
+                // 0 -> 2, 1 -> 3 ; nodes 2 and 3 share the program
+                let p = PredCase { nodes: vec![(0, Role::Tracer), (1, Role::Tracer), (l, shared.clone()), (l, shared.clone())], edges: vec![2, 3] };
+                f(i, CkCase { preds: vec![p], sols: vec![SolCase { pred: 0, contract: 0xC1, data: vec![], mutations: declared.clone() }], pre: pre_states()[1].0.clone(), strict: false, collect_all: true });
+                i += 1;
+                // the shared program at a root and at a leaf below a plain root
+                let p = PredCase { nodes: vec![(l, shared.clone()), (0, Role::Tracer), (l, shared)], edges: vec![2] };
+                f(i, CkCase { preds: vec![p], sols: vec![SolCase { pred: 0, contract: 0xC1, data: vec![], mutations: declared.clone() }], pre: pre_states()[1].0.clone(), strict: false, collect_all: true });
+            }
+        }
+    }
+    // two readers of the same start key with different counts / views, in one level of one
+    // predicate and in two solutions (a read must not be answered from another read's result)
+    for declared in [vec![], vec![(vec![1], vec![7])], vec![(vec![0], vec![]), (vec![2], vec![8, 8])]] {
+        for (ca, cb) in [(1, 2), (2, 1), (1, 3), (3, 0), (2, 2)] {
+            for (opa, opb) in [(2u8, 2u8), (2, 0), (0, 2), (3, 2)] {
+                for key in [vec![0], vec![1]] {
+                    i += 1;
+                    let a = Role::Probe { op: opa, ext: 0xC1, key: key.clone(), count: ca };
+                    let b = Role::Probe { op: opb, ext: 0xC1, key: key.clone(), count: cb };
+                    let both = PredCase { nodes: vec![(u16::MAX, a.clone()), (u16::MAX, b.clone())], edges: vec![] };
+                    let pre = pre_states()[1].0.clone();
+                    f(i, CkCase { preds: vec![both], sols: vec![SolCase { pred: 0, contract: 0xC1, data: vec![], mutations: declared.clone() }], pre: pre.clone(), strict: false, collect_all: true });
+                    i += 1;
+                    let pa = PredCase { nodes: vec![(u16::MAX, a)], edges: vec![] };
+                    let pb = PredCase { nodes: vec![(u16::MAX, b)], edges: vec![] };
+                    f(
+                        i,
+                        CkCase {
+                            preds: vec![pa, pb],
+                            sols: vec![
+                                SolCase { pred: 0, contract: 0xC1, data: vec![], mutations: declared.clone() },
+                                SolCase { pred: 1, contract: 0xC1, data: vec![], mutations: vec![] },
+                            ],
+                            pre,
+                            strict: false,
+                            collect_all: false,
+                        },
+                    );
                 }
             }
         }
@@ -156,7 +216,7 @@ fn cases(tier: Tier, mut f: impl FnMut(u64, CkCase)) {
 }
 
 fn run(cfg: &RunCfg, rep: &mut Report) {
-    rep.bound_completed = format!("full product of the listed menus{}", if cfg.tier == Tier::Quick { " (every third request in the quick tier)" } else { "" });
+    rep.bound_completed = "full product of the listed menus (same in both tiers)".to_string();
     cases(cfg.tier, |i, case| {
         if cfg.mine(i) {
             wal::tick();
